@@ -140,14 +140,15 @@ def restricted_number_type(
 
     register_key = (tuple(sorted(restrictions)), base_type, join)
 
+    if name is None:
+        # automatic name: the same for the same set of restrictions in any order, different for different references
+        name = base_type.__name__
+        for num, (comparison, ref) in enumerate(register_key[0]):
+            name += "_" + join + "_" if num > 0 else "_"
+            name += _operators2[comparison].__name__ + str(ref).replace(".", "_")
+
     restrictions = [(_operators2[x[0]], x[1]) for x in restrictions]
     expression = (" " + join + " ").join(["v" + _operators1[op] + str(ref) for op, ref in restrictions])
-
-    if name is None:
-        name = base_type.__name__
-        for num, (comparison, ref) in enumerate(restrictions):
-            name += "_" + join + "_" if num > 0 else "_"
-            name += comparison.__name__ + str(ref).replace(".", "")
 
     extra_attrs = {
         "_restrictions": restrictions,
